@@ -52,10 +52,11 @@ type vfClientScript struct {
 	ExitAfter int               `json:"exitAfter"` // exit after this many requests were received and handled (-1: run to EOF)
 	ExitCode  int               `json:"exitCode"`
 	ExitDelay int               `json:"exitDelayMs"` // sleep before exiting
-	Garbage   int               `json:"garbage"`   // write garbage instead of the n-th answer (1-based, 0: never)
-	Duplicate int               `json:"duplicate"` // write the n-th answer twice (1-based, 0: never)
-	Order     string            `json:"order"`     // immediate | reverse-pairs | at-end
-	Probe     bool              `json:"probe"`     // connect to host:port and record the identity line a script-server sends
+	Garbage   int               `json:"garbage"`     // write garbage instead of the n-th answer (1-based, 0: never)
+	Duplicate int               `json:"duplicate"`   // write the n-th answer twice (1-based, 0: never)
+	Order     string            `json:"order"`       // immediate | reverse-pairs | at-end
+	Probe     bool              `json:"probe"`       // connect to host:port and record the identity line a script-server sends
+	ProbeDial bool              `json:"probeDial"`   // only check that host:port accepts TCP connections
 }
 
 type vfPeerEvent struct {
@@ -128,7 +129,7 @@ func vfLoadScript(v any) {
 }
 
 func vfProbeIdentity(host string, port uint32) string {
-	conn, err := net.DialTimeout("tcp", fmt.Sprintf("%s:%d", host, port), 5*time.Second)
+	conn, err := net.DialTimeout("tcp", net.JoinHostPort(host, fmt.Sprint(port)), 5*time.Second)
 	if err != nil {
 		return "dial-error: " + err.Error()
 	}
@@ -206,6 +207,13 @@ func vfPeerClientMain() int {
 		}
 		if script.Probe {
 			ev.Identity = vfProbeIdentity(req.Host, req.Port)
+		} else if script.ProbeDial {
+			if conn, err := net.DialTimeout("tcp", net.JoinHostPort(req.Host, fmt.Sprint(req.Port)), 5*time.Second); err != nil {
+				ev.Identity = "dial-error: " + err.Error()
+			} else {
+				_ = conn.Close()
+				ev.Identity = "dial-ok"
+			}
 		}
 		vfPeerLog(ev)
 		action := script.Actions[req.TestName]
@@ -271,6 +279,7 @@ type vfServerScript struct {
 	Fault    string `json:"fault"`    // "", exit-before-answer, garbage, empty, oversize, no-cert, die-after-conns
 	FaultFor string `json:"faultFor"` // only for instances whose "<protocol>/<version>/<tls>" matches ("" = all)
 	After    int    `json:"after"`
+	HTTPLog  bool   `json:"httpLog"` // parse an HTTP/1.1 request on each connection and log its test name
 }
 
 func vfPeerServerMain() int {
@@ -307,8 +316,20 @@ func vfPeerServerMain() int {
 			conns++
 			n := conns
 			mu.Unlock()
-			_, _ = conn.Write([]byte(identity + "\n"))
-			_ = conn.Close()
+			if script.HTTPLog {
+				go func(conn net.Conn) {
+					defer conn.Close()
+					_ = conn.SetDeadline(time.Now().Add(2 * time.Second))
+					hreq, err := http.ReadRequest(bufio.NewReader(conn))
+					if err == nil && hreq.Method != "PRI" {
+						vfPeerLog(vfPeerEvent{Event: "http-request", Port: port, Identity: identity, Name: hreq.Header.Get("X-Test-Case-Name"), Host: hreq.Method + " " + hreq.URL.Path})
+					}
+					_, _ = conn.Write([]byte("HTTP/1.1 503 Service Unavailable\r\nContent-Length: 0\r\nConnection: close\r\n\r\n"))
+				}(conn)
+			} else {
+				_, _ = conn.Write([]byte(identity + "\n"))
+				_ = conn.Close()
+			}
 			vfPeerLog(vfPeerEvent{Event: "conn", Port: port, Identity: identity})
 			if fault == "die-after-conns" && n >= script.After {
 				vfPeerLog(vfPeerEvent{Event: "server-stop", Port: port, Identity: identity, Name: "died"})
@@ -337,4 +358,36 @@ func vfPeerServerMain() int {
 	vfPeerLog(vfPeerEvent{Event: "server-stop", Port: port, Identity: identity, Name: "sigterm"})
 	_ = lis.Close()
 	return 0
+}
+
+type vfSyncPrinter struct {
+	mu    sync.Mutex
+	lines []string
+}
+
+func (p *vfSyncPrinter) Printf(msg string, args ...any) {
+	p.mu.Lock()
+	defer p.mu.Unlock()
+	p.lines = append(p.lines, fmt.Sprintf(msg, args...))
+}
+func (p *vfSyncPrinter) PrefixPrintf(prefix, msg string, args ...any) {
+	p.mu.Lock()
+	defer p.mu.Unlock()
+	p.lines = append(p.lines, prefix+": "+fmt.Sprintf(msg, args...))
+}
+func (p *vfSyncPrinter) String() string {
+	p.mu.Lock()
+	defer p.mu.Unlock()
+	s := strings.Join(p.lines, "\n")
+	if len(s) > 3000 {
+		s = s[:3000] + "…"
+	}
+	return s
+}
+
+// Full returns everything printed (String() truncates for messages).
+func (p *vfSyncPrinter) Full() string {
+	p.mu.Lock()
+	defer p.mu.Unlock()
+	return strings.Join(p.lines, "\n")
 }
